@@ -137,7 +137,7 @@ CHECKS["C12"] = dict(
          "pending and later calls on a closed handle return net.ErrClosed; after the last close the address can be bound again, no goroutine of the shared listener is left, and connections accepted by the socket "
          "but handed to nobody are closed (EOF/RST, not a hang). Non-trivial = a close while deliveries are in flight or calls are pending, deliveries spread over >=2 handles, or re-acquisition after full release.",
     assumptions=["interleavings are sampled by repetition, not enumerated", "virtual packet connections are closed at most once (documented precondition)"],
-    units=[unit("props", ["Stream", "Packet"], "C12")],
+    units=[unit("props", ["Stream", "Packet", "Churn"], "C12")],
 )
 
 CHECKS["C13"] = dict(
